@@ -32,6 +32,7 @@ func init() {
 		c13Magic(fs)
 		c13StatusMap(fs)
 		c13Wire(fs)
+		c13SeedMap(fs)
 	}})
 }
 
